@@ -289,7 +289,15 @@ func (g Guard) Cmp() Cmp {
 					}
 				}
 			}
-			return Cmp{Op: op, X: b.X, Y: b.Y}
+			// canonical form: a constant operand is on the right ("0 < x" is "x > 0"),
+			// so that rules read the same comparison however it is spelled
+			k := Cmp{Op: op, X: b.X, Y: b.Y}
+			if _, xc := b.X.(*ssa.Const); xc {
+				if _, yc := b.Y.(*ssa.Const); !yc {
+					k = k.Swap()
+				}
+			}
+			return k
 		}
 	}
 	// equality helpers on byte slices: bytes.Equal(a, b), hmac.Equal(a, b),
@@ -309,6 +317,24 @@ func (g Guard) Cmp() Cmp {
 		return Cmp{Op: token.EQL, X: v, Y: boolConst(false)}
 	}
 	return Cmp{Op: token.EQL, X: v, Y: boolConst(true)}
+}
+
+// CmpOf reads a comparison instruction in canonical form (a constant operand on
+// the right: "K == x" is "x == K", "K < x" is "x > K"); ok is false for other
+// binary operations.
+func CmpOf(b *ssa.BinOp) (Cmp, bool) {
+	switch b.Op {
+	case token.EQL, token.NEQ, token.LSS, token.LEQ, token.GTR, token.GEQ:
+	default:
+		return Cmp{}, false
+	}
+	k := Cmp{Op: b.Op, X: b.X, Y: b.Y}
+	if _, xc := b.X.(*ssa.Const); xc {
+		if _, yc := b.Y.(*ssa.Const); !yc {
+			k = k.Swap()
+		}
+	}
+	return k, true
 }
 
 func boolConst(b bool) *ssa.Const {
